@@ -22,8 +22,9 @@ A5(g) ArgMax= (n -> s) :- Score(g, n, s);
 A6(g) ArgMin= (n -> s) :- Score(g, n, s);
 A7(g, t? += s, lo? Min= s, hi? Max= s, c? Count= n, st? Set= s) distinct :- Score(g, n, s);
 A8(g) Array= (s -> n) :- Score(g, n, s);
+A9(g, st? Set= v, c? Count= v) distinct :- Opt(g, v);
 """
-AGG_PREDS = ['A1', 'A2', 'A3', 'A4', 'A5', 'A6', 'A7', 'A8']
+AGG_PREDS = ['A1', 'A2', 'A3', 'A4', 'A5', 'A6', 'A7', 'A8', 'A9']
 
 
 def arrival_order(rep, tier):
@@ -40,6 +41,8 @@ def arrival_order(rep, tier):
     n = r.choice([4, 5])
     scores = r.sample(range(1, 60), n)
     facts = ['Score("g%d", "n%d", %d);' % (i % 2, i, sc) for i, sc in enumerate(scores)]
+    # values that may be null (a set of numbers and nulls), permuted together with the other facts
+    facts += ['Opt("g%d", %s);' % (i % 2, v) for i, v in enumerate(['null', str(scores[0]), str(scores[1] * 2), 'null'][:n - 1])]
     perms = list(itertools.permutations(facts))
     if len(perms) > (24 if tier == 'quick' else 120):
       perms = [perms[0]] + r.sample(perms[1:], 23 if tier == 'quick' else 119)
